@@ -43,7 +43,8 @@ CarriesRequested(k) == k \in {"authentic", "wrongkind", "paidkind"}
 \*   valid1 valid2 valid3   owner P, signed by P, counter 1 / 2 / 3
 \*   unsigned               owner P, no signature, counter 5
 \*   badsig                 owner P, signature by another key, counter 6
-\*   inflated               owner P, P's signature for counter 2 with the counter field raised to 9
+\*   inflated               owner P, P's signature for counter 2 with the counter field raised to the largest value
+\*                          (u64::MAX in the driver; 9 in the model, only the order matters)
 \*   foreign                owner Q, validly signed by Q, counter 7, returned under P's record key
 \*   wrongkey               owner Q, validly signed by Q, counter 8, under Q's own record key
 \*   wrongkind              a chunk record under P's record key
